@@ -185,6 +185,7 @@ def run_scenario(repo, fi, n_ap, nb_max, nb_min, chunk):
     h = MonoHooks(n_ap, nb_max, nb_min)
     I = Interp(repo, h)
     I.axis_len[N] = NW
+    I.axis_len[A] = n_ap
     max_ram = chunk * (4. * 2. * NM * n_ap) / 1024. ** 3
     mic = unit_atom('micron')
     r = I.call(fi, ['M'], {'overwrite': True, 'max_ram': max_ram, 'wav_min': scalar(sym('wmin') * mic, mic), 'wav_max': scalar(sym('wmax') * mic, mic)})
@@ -221,9 +222,18 @@ def check_scenario(I, h, r, n_ap, nb_max, nb_min):          # noqa: C901
         if not isinstance(v, Arr):
             unknown.append('%s is %r' % (what, v))
             return
+        if v.ndim == 1 and v.dims[0] not in (A, None) and I._positional(v.dims[0]) and I.axis_len[v.dims[0]] == h.n_ap:
+            v = I._relabel_axis(v, v.dims[0], A)          # a row built along an axis that only counts positions: position a is aperture a
+        if h.n_ap == 1:
+            # one aperture: element 0 of the aperture axis and the value along that axis are the same thing
+            v = v.with_(poly=alg.index_at(v.poly, A, Poly.const(0)))
+            ref = alg.index_at(ref, A, Poly.const(0))
+        if v.mask is None and h.n_ap > 1 and A in alg.poly_labels(v.poly) | alg.poly_labels(ref) \
+                and all(alg.is_zero(alg.index_at(v.poly, A, Poly.const(k_)) - alg.index_at(ref, A, Poly.const(k_)))[0] for k_ in range(h.n_ap)):
+            return          # equal aperture by aperture (one side may be written out position by position)
         if v.mask is not None or not alg.is_zero(v.poly - ref)[0]:
             syms, fns = alg.leaf_syms(v.poly - ref)
-            if all(s.startswith(('sflux', 'serr', 'wav', 'ap', 'unit:')) for s in syms) and fns <= {'at', 'rev', 'len'}:
+            if all(s.startswith(('sflux', 'serr', 'wav', 'ap', 'unit:', 'idx:')) for s in syms) and fns <= {'at', 'rev', 'len'}:
                 problems.append('%s is %s, not %s' % (what, alg.show(v.poly, 90), alg.show(ref, 90)))
             else:
                 unknown.append('%s is %s' % (what, alg.show(v.poly, 90)))
@@ -268,7 +278,14 @@ def check_scenario(I, h, r, n_ap, nb_max, nb_min):          # noqa: C901
                 same(v, col, '%s: row %d of %s' % (tag, im, buf))
             st = [e for e in before if e[0] == 'store' and e[1] == 'model_names' and e[2] == im]
             if not st and attrs.get('model_names') is not None:
-                unknown.append('%s: model names given as a whole, %r' % (tag, attrs.get('model_names')))
+                whole = attrs.get('model_names')
+                if isinstance(whole, Arr) and whole.ndim == 1 and whole.mask is None and whole.dims[0] is not None and I.axis_len.get(whole.dims[0]) == NM:
+                    # the names handed over as one array: row im of it
+                    got_nm = alg.index_at(whole.poly, whole.dims[0], Poly.const(im))
+                    if not (got_nm == sym('str:NAME%d' % im)):
+                        (problems if alg.leaf_syms(got_nm)[0] <= {'str:NAME%d' % k_ for k_ in range(NM)} else unknown).append('%s: row %d of the model names is %s' % (tag, im, alg.show(got_nm, 60)))
+                    continue
+                unknown.append('%s: model names given as a whole, %r' % (tag, whole))
                 continue
             if len(st) != 1 or st[0][3] != 'NAME%d' % im:
                 problems.append('%s: row %d of the model names is %r' % (tag, im, [e[3] for e in st]))
